@@ -129,3 +129,10 @@ Example frame_accessors_safe_nonvacuous :
   wf s /\ exists f, parse cfg0 s = Ok f /\
   frame_payload s f = Ok (Some (mkSlice (skipn 14 (arr s)) 28)).
 Proof. cbv zeta. split; [vm_compute; lia|]. eexists. split; vm_compute; reflexivity. Qed.
+
+(* Frame.Log evaluates len(frame.Payload()): safe after a nil error *)
+Lemma frame_log_safe c s f : wf s -> parse c s = Ok f -> frame_log s f = Ok tt.
+Proof.
+  intros Hwf Hp. destruct (frame_accessors_safe c s f Hwf Hp) as (_ & _ & _ & _ & _ & HP).
+  unfold frame_log. destruct HP as [E|(off & _ & E)]; rewrite E; reflexivity.
+Qed.
